@@ -68,7 +68,7 @@ func jsReduce(src string, c jsConfig) string {
 	v := jsJudge(src, c)
 	class := verdictClass(v.Verdict)
 	test := func(s string) bool { return jsStillFails(s, c, class) }
-	// 1. statement-ish chunks: split after ';' and '}' 
+	// 1. statement-ish chunks: split after ';' and '}'
 	split := func(s string, seps string) []string {
 		var parts []string
 		last := 0
